@@ -46,6 +46,7 @@ type ccase struct {
 	CaseSeed uint64 `json:"case_seed"`
 	Format   string `json:"format"`
 	Chunk    string `json:"chunk"`
+	HourOff  int    `json:"hour_off,omitempty"` // clock of the REFERENCE peer relative to the real one (genuine kinds): -1, 0, +1
 	Sub      string `json:"sub,omitempty"` // the sub-check that failed (fn family), for the replay reader
 }
 
@@ -499,7 +500,7 @@ func runDial(c ccase) (retry bool) {
 	srv := ref.Fresh("s")
 	srep := ref.SrvNew(srv, id.NodeID, id.Priv, id.LenSeed, refTape(rng), "")
 	if srep.Class == "ok" {
-		srep = ref.SrvFeed(srv, blob, hour0, time.Now().UnixNano())
+		srep = ref.SrvFeed(srv, blob, hour0+int64(c.HourOff), time.Now().UnixNano())
 	}
 	var buf []byte
 	desc := ""
@@ -677,7 +678,7 @@ func runSrv(c ccase) (retry bool) {
 		cfg.Pub = o4h.NewIdentity(rng, 0).Pub
 	}
 	cli := ref.Fresh("c")
-	rep := ref.CliNew(cli, cfg.NodeID, cfg.Pub, refTape(rng), hour0)
+	rep := ref.CliNew(cli, cfg.NodeID, cfg.Pub, refTape(rng), hour0+int64(c.HourOff))
 	if rep.Class != "ok" {
 		violate("reference-client-failed", "correspondence", rep.Raw, c)
 		return
@@ -721,9 +722,10 @@ func runSrv(c ccase) (retry bool) {
 		}
 		return
 	}
+	r.Count("srv_genuine_client_clock", fmt.Sprintf("%+d", c.HourOff))
 	conn, err := ep.Result()
 	if !done || err != nil {
-		violate("real-server-rejects-ref-client", "impl-oracle", fmt.Sprintf("WrapConn done=%v err=%v", done, err), c)
+		violate("real-server-rejects-ref-client", "impl-oracle", fmt.Sprintf("client clock %+dh: WrapConn done=%v err=%v", c.HourOff, done, err), c)
 		return
 	}
 	resp := ep.Conn.TakeWritten()
@@ -738,7 +740,11 @@ func runSrv(c ccase) (retry bool) {
 		}
 	}
 	if fr.Class != "ok" {
-		violate("ref-client-rejects-real-server", "impl-oracle", "cli.feed: "+fr.Raw, c)
+		// the property: a client talking to the holder of the identity key FINISHES its handshake —
+		// also when the two clocks are an hour apart (the server accepts E-1/E/E+1 and must MAC its
+		// response with the hour the client used)
+		violate("genuine-server-rejected-by-client", "impl-oracle",
+			fmt.Sprintf("the genuine real server accepted a correct client whose clock is %+d h from its own, but the client must reject the response: cli.feed: %s", c.HourOff, fr.Raw), c)
 		return
 	}
 	ref.Dec(cli, resp[fed:])
@@ -822,7 +828,8 @@ func runFresh(c ccase) (retry bool) {
 	complete := func(sc *sconn) {
 		cli := ref.Fresh("c")
 		defer ref.Drop(cli)
-		rep := ref.CliNew(cli, id.NodeID, id.Pub, refTape(rng), hour0)
+		off := int64(len(ys)%3) - 1 // the clients' clocks: -1, 0, +1 h in turn
+		rep := ref.CliNew(cli, id.NodeID, id.Pub, refTape(rng), hour0+off)
 		if rep.Class != "ok" {
 			violate("reference-client-failed", "correspondence", rep.Raw, c)
 			bad = true
@@ -842,7 +849,7 @@ func runFresh(c ccase) (retry bool) {
 		after := tape.Since(m)
 		fr := ref.CliFeed(cli, resp)
 		if fr.Class != "ok" {
-			violate("ref-client-rejects-real-server", "impl-oracle", sc.label+": cli.feed: "+fr.Raw, c)
+			violate("genuine-server-rejected-by-client", "impl-oracle", fmt.Sprintf("%s, client clock %+d h: cli.feed: %s", sc.label, off, fr.Raw), c)
 			bad = true
 			return
 		}
@@ -1209,12 +1216,20 @@ func main() {
 	}
 	dialKinds := append([]string{"genuine", "genuine", "wrong-nodeid", "wrong-pubkey"}, forgeKinds...)
 	for i, n := 0, r.Scale(180, 3000); i < n; i++ {
-		run(ccase{Family: "dial", Kind: dialKinds[i%len(dialKinds)], CaseSeed: rng.U64(), Format: formats[(i/len(dialKinds))%2],
-			Chunk: vlib.Pick(rng, o4h.ChunkClasses)})
+		dc := ccase{Family: "dial", Kind: dialKinds[i%len(dialKinds)], CaseSeed: rng.U64(), Format: formats[(i/len(dialKinds))%2],
+			Chunk: vlib.Pick(rng, o4h.ChunkClasses)}
+		if dc.Kind == "genuine" {
+			dc.HourOff = []int{0, -1, 1}[(i/2)%3] // the reference server's clock
+		}
+		run(dc)
 	}
 	srvKinds := []string{"genuine", "genuine", "wrong-nodeid", "wrong-pubkey"}
 	for i, n := 0, r.Scale(40, 600); i < n; i++ {
-		run(ccase{Family: "srv", Kind: srvKinds[i%len(srvKinds)], CaseSeed: rng.U64(), Format: "-", Chunk: vlib.Pick(rng, o4h.ChunkClasses)})
+		sc := ccase{Family: "srv", Kind: srvKinds[i%len(srvKinds)], CaseSeed: rng.U64(), Format: "-", Chunk: vlib.Pick(rng, o4h.ChunkClasses)}
+		if sc.Kind == "genuine" {
+			sc.HourOff = []int{-1, 0, 1}[(i/2)%3] // the reference client's clock
+		}
+		run(sc)
 	}
 	for i, n := 0, r.Scale(3, 40); i < n; i++ {
 		run(ccase{Family: "fresh", Kind: "8-overlapping+8-sequential", CaseSeed: rng.U64(), Format: "both", Chunk: "whole"})
